@@ -15,6 +15,7 @@ struct Term
     // flags: bit 0 = no signal callback is registered; bits 1..2 = what the terminal object's storage holds before init
     //        (0x00, 0xA5, 0xFF, 0x01 bytes: the C API initialises a caller-supplied struct)
     virtual void start(unsigned cap, unsigned hist, TermSink *sink, const char *prompt, bool echo, unsigned flags = 0) = 0;
+    virtual void set_echo(bool on) = 0; // may be called from inside the execute callback (a login / password dialogue)
     virtual void feed(int c) = 0;
     virtual long len() = 0;    // -1 when the implementation gives no public access
     virtual long cursor() = 0; // -1 when not accessible
